@@ -40,6 +40,10 @@ pub enum Sym {
     StartViaCpi(u8),
     BorrowSmall,
     BorrowHuge,
+    /// borrow / withdraw a given dollar value (side enumeration across the band between the initial and the
+    /// maintenance requirement)
+    BorrowUsd(u16),
+    WithdrawUsd(u16),
     WithdrawSmall,
     WithdrawMost,
     RepayAll,
@@ -163,6 +167,8 @@ pub fn build_ix(sc: &Sc, sym: Sym) -> Ix {
         }
         Sym::BorrowSmall => ix::borrow(w.group, acct, auth, w.banks[1].key, ta(1), w.banks[1].token_program, 1_000_000_000, rem_both.clone()), // $25
         Sym::BorrowHuge => ix::borrow(w.group, acct, auth, w.banks[1].key, ta(1), w.banks[1].token_program, 200_000_000_000, rem_both.clone()), // $5000
+        Sym::BorrowUsd(x) => ix::borrow(w.group, acct, auth, w.banks[1].key, ta(1), w.banks[1].token_program, x as u64 * 40_000_000, rem_both.clone()),
+        Sym::WithdrawUsd(x) => ix::withdraw(w.group, acct, auth, w.banks[0].key, ta(0), w.banks[0].token_program, x as u64 * 1_000_000, None, rem_both.clone()),
         Sym::WithdrawSmall => ix::withdraw(w.group, acct, auth, w.banks[0].key, ta(0), w.banks[0].token_program, 10_000_000, None, rem_both.clone()),
         Sym::WithdrawMost => ix::withdraw(w.group, acct, auth, w.banks[0].key, ta(0), w.banks[0].token_program, 990_000_000, None, rem_both.clone()),
         Sym::RepayAll => ix::repay(w.group, acct, auth, w.banks[1].key, ta(1), w.banks[1].token_program, 0, Some(true), vec![]),
@@ -289,7 +295,7 @@ pub fn run_shape(sc: &Sc, st: St, list: &[Sym]) -> Out {
         }
     }
     // 4. health is enforced before the transaction ends
-    let risky = list.iter().any(|s| matches!(s, Sym::BorrowSmall | Sym::BorrowHuge | Sym::WithdrawSmall | Sym::WithdrawMost));
+    let risky = list.iter().any(|s| matches!(s, Sym::BorrowSmall | Sym::BorrowHuge | Sym::WithdrawSmall | Sym::WithdrawMost | Sym::BorrowUsd(_) | Sym::WithdrawUsd(_)));
     if risky {
         let h = health::health(&post, &acct, Req::Initial).unwrap();
         if h.engine_err.is_none() && h.health() < -h.allow.clone() - rf::qfrac(1, 1_000_000) {
@@ -331,6 +337,7 @@ pub fn run(tier: Tier) -> Outcome {
             }
         }
     }
+    let mut machinery_extra: Vec<String> = vec![];
     // side enumeration: end indices far outside the transaction whose low 8 / 16 / 32 bits point into it
     {
         let mut side: Vec<Sym> = vec![Sym::End, Sym::EndHeld, Sym::BorrowSmall, Sym::RepayAll];
@@ -351,7 +358,31 @@ pub fn run(tier: Tier) -> Outcome {
             }
         }
     }
+    // side enumeration: amounts across the band between the initial and the maintenance requirement (the scene's
+    // weights are 0.5 / 0.9 for assets and 1.25 / 1.1 for debt: with $1000 deposited, a debt of up to $400 passes
+    // the initial check and one of up to $818 the maintenance check; after borrowing $300 a withdrawal of up to
+    // $250 resp. $633)
+    {
+        let mut side: Vec<Sym> = vec![Sym::Start(1), Sym::Start(2), Sym::Start(3), Sym::End, Sym::EndHeld, Sym::RepayAll];
+        side.extend([300u16, 399, 401, 600, 817, 819].map(Sym::BorrowUsd));
+        side.extend([240u16, 260, 600, 640].map(Sym::WithdrawUsd));
+        let sc = scene(St::Normal);
+        for lists in shape_chunks(&side, 4) {
+            let results: Vec<Out> = lists.par_iter().map(|l| run_shape(&sc, St::Normal, l)).collect();
+            for r in results {
+                cells += 1;
+                *classes.entry(format!("band:{}", r.class)).or_insert(0) += 1;
+                if found.len() < 5000 {
+                    found.extend(r.found);
+                }
+            }
+        }
+        if !classes.iter().any(|(k, v)| k.starts_with("band:") && k.contains("with_bracket:risky") && *v > 0) {
+            machinery_extra.push("vacuity guard: no bracket of the band enumeration committed with a borrow or withdrawal".to_string());
+        }
+    }
     let mut o = Outcome { level: "model_checking".into(), ..Default::default() };
+    o.machinery.extend(machinery_extra);
     let mut per_clause: BTreeMap<String, usize> = BTreeMap::new();
     o.found = found.into_iter().filter(|f| {
         let n = per_clause.entry(f.clause.clone()).or_insert(0);
@@ -379,7 +410,7 @@ pub fn run(tier: Tier) -> Outcome {
         "account_states": states.iter().map(|s| format!("{:?}", s)).collect::<Vec<_>>(),
         "max_length": max_len,
         "exhaustive": true,
-        "rule": "every instruction list of length 1..max over the alphabet (start with every end-index 0..max, four kinds of end, borrow / withdraw within and beyond borrowing power, repay-all, deposit, foreign no-op, liquidate / bankruptcy / start-liquidation of the bracketed account, start / end via CPI) x 7 account states, plus every list up to length 4 over {end, borrow, repay-all, start with end-index 2^8 / 2^16 / 2^32 + 0..3} (indices far outside the transaction whose low bits alias a position inside it), executed atomically with the real instructions sysvar and signed by the authority, a liquidator and the risk admin; a commit => no account is flagged in-flash-loan; every start that executed names a later top-level end of this program for the same account and is not nested, not on a frozen / disabled / in-receivership account, nothing via CPI; no liquidation, bankruptcy or receivership start executed while the account was flagged; and if anything was borrowed or withdrawn the reference initial health of the account is non-negative",
+        "rule": "[plus a side enumeration of every list of length <= 4 over start(1..3), two kinds of end, repay-all, borrows of $300 / 399 / 401 / 600 / 817 / 819 and withdrawals of $240 / 260 / 600 / 640 - amounts either side of the initial and of the maintenance requirement] every instruction list of length 1..max over the alphabet (start with every end-index 0..max, four kinds of end, borrow / withdraw within and beyond borrowing power, repay-all, deposit, foreign no-op, liquidate / bankruptcy / start-liquidation of the bracketed account, start / end via CPI) x 7 account states, plus every list up to length 4 over {end, borrow, repay-all, start with end-index 2^8 / 2^16 / 2^32 + 0..3} (indices far outside the transaction whose low bits alias a position inside it), executed atomically with the real instructions sysvar and signed by the authority, a liquidator and the risk admin; a commit => no account is flagged in-flash-loan; every start that executed names a later top-level end of this program for the same account and is not nested, not on a frozen / disabled / in-receivership account, nothing via CPI; no liquidation, bankruptcy or receivership start executed while the account was flagged; and if anything was borrowed or withdrawn the reference initial health of the account is non-negative",
         "outcome_classes": classes,
         "samples": samples,
     });
